@@ -414,4 +414,4 @@ class RequestCache(TaskManager):
 
         if tasks:
             with suppress(CancelledError):
-                await gather(*tasks)
+                await gather(*tasks, return_exceptions=True)
